@@ -7,15 +7,22 @@ import (
 	"errors"
 	"flag"
 	"fmt"
+	"os"
 	"path"
+	"runtime"
+	"sort"
 	"strconv"
 	"strings"
+	"sync"
+	"sync/atomic"
 	"time"
 
+	"github.com/pingcap/check"
 	"github.com/pingcap/kvproto/pkg/metapb"
 	"github.com/pingcap/kvproto/pkg/pdpb"
 	"github.com/tikv/pd/pkg/errs"
 	"github.com/tikv/pd/pkg/typeutil"
+	"github.com/tikv/pd/server"
 	"github.com/tikv/pd/server/cluster"
 	"github.com/tikv/pd/server/config"
 	"github.com/tikv/pd/server/core"
@@ -26,6 +33,7 @@ import (
 	"verifharness/internal/etcdh"
 	_ "verifharness/internal/quiet"
 	"verifharness/internal/rng"
+	"verifharness/internal/storecfg"
 	"verifharness/internal/trace"
 )
 
@@ -34,8 +42,8 @@ type inst struct {
 	alloc   id.Allocator
 	client  *clientv3.Client
 	gate    *etcdh.GateKV
-	pending chan string // result of a parked call
-	queued  chan string // result of a call issued behind the parked one (it must wait for the allocator's mutex)
+	pending chan string          // result of a parked call
+	queued  chan string          // result of a call issued behind the parked one (it must wait for the allocator's mutex)
 	rc      *cluster.RaftCluster // split handling (cluster_worker.go) drawing from this allocator
 }
 
@@ -260,6 +268,60 @@ func (w *world) exec(op string) string {
 			return "fail"
 		}
 		return flatten(resp.GetIds())
+	case len(f) == 3 && f[0] == "race": // instance, goroutines: concurrent Alloc calls when exactly one id is left in the window
+		in := get(f[1])
+		if in == nil || in.pending != nil {
+			return bad
+		}
+		var all []uint64
+		g := atoi(f[2])
+		// real parallelism for the concurrent calls (bin/check runs harnesses with GOMAXPROCS=4)
+		defer runtime.GOMAXPROCS(runtime.GOMAXPROCS(runtime.NumCPU()))
+		for round := 0; round < 3; round++ {
+			for k := 0; k < 1100; k++ {
+				v, err := in.alloc.Alloc()
+				if err != nil {
+					return "fail"
+				}
+				all = append(all, v)
+				if (v+1)%1000 == 0 {
+					break
+				}
+			}
+			res := make([]uint64, g)
+			errs := make([]error, g)
+			var wg sync.WaitGroup
+			var ready int32
+			for k := 0; k < g; k++ {
+				wg.Add(1)
+				go func(k int) {
+					defer wg.Done()
+					// leave the barrier together
+					atomic.AddInt32(&ready, 1)
+					for spins := 0; atomic.LoadInt32(&ready) < int32(g); spins++ {
+						if spins%100000 == 99999 {
+							runtime.Gosched() // more goroutines than processors: let the others arrive
+						}
+					}
+					res[k], errs[k] = in.alloc.Alloc()
+				}(k)
+			}
+			wg.Wait()
+			for _, e := range errs {
+				if e != nil {
+					return "fail"
+				}
+			}
+			sort.Slice(res, func(a, b int) bool { return res[a] < res[b] })
+			all = append(all, res...)
+		}
+		var parts []string
+		for _, v := range all {
+			parts = append(parts, strconv.FormatUint(v, 10))
+		}
+		return "ok " + strings.Join(parts, " ")
+	case len(f) == 2 && f[0] == "srvterm":
+		return serverTerms(atoi(f[1]))
 	case len(f) == 1 && f[0] == "stored":
 		return fmt.Sprintf("ok %d", w.stored())
 	}
@@ -307,7 +369,7 @@ func gen(w *world, t *trace.W, r *rng.R, maxOps int) {
 				op = fmt.Sprintf("leader %d", r.Range(0, members))
 			}
 		} else {
-			switch r.Pick(50, 6, 14, 4, 12, 6, 4, 4, 5, 7) {
+			switch r.Pick(50, 6, 14, 4, 12, 6, 4, 4, 5, 7, 2) {
 			case 0:
 				op = fmt.Sprintf("alloc %d %s", i, f)
 			case 1:
@@ -329,7 +391,14 @@ func gen(w *world, t *trace.W, r *rng.R, maxOps int) {
 			case 8:
 				op = fmt.Sprintf("split %d %d", i, r.Range(1, 5))
 			case 9:
-				op = fmt.Sprintf("bsplit %d %d %d", i, r.Range(1, 6), r.Range(1, 5))
+				if r.Bool(1, 12) {
+					// an unusually large batch: more ids than one window holds
+					op = fmt.Sprintf("bsplit %d %d 3", i, []int{260, 300, 334}[r.Intn(3)])
+				} else {
+					op = fmt.Sprintf("bsplit %d %d %d", i, r.Range(1, 6), r.Range(1, 5))
+				}
+			case 10:
+				op = fmt.Sprintf("race %d %d", i, r.Range(2, 12))
 			case 7:
 				// burst: exhaust most of a window quickly so that rebases happen often
 				for b, nb := 0, []int{40, 40, 40, 40, 40, 40, 400, 1001}[r.Intn(8)]; b < nb; b++ {
@@ -379,4 +448,112 @@ func main() {
 		gen(w, t, r, *maxOps)
 	}
 	w.reset()
+	if *stream == 0 {
+		// once per run: the id allocator of a real PD server across leadership terms (monitor only)
+		w.run(t, "reset")
+		w.run(t, "srvterm 1")
+	}
+}
+
+// serverTerms: an in-process PD server; ids are drawn through the AllocID handler at the start of every term and,
+// all the time, by a goroutine straight from the first server's allocator (an in-flight request that passed the
+// leader check).  The server is closed (a step-down with the leader record still present) and a new server is
+// started on the same data directory, `terms` times.  Returns every id obtained by anybody.
+func serverTerms(terms int) string {
+	cfg := server.NewTestSingleConfig(&check.C{})
+	cfg.LeaderLease = 60
+	cfg.Log.Level = "fatal"
+	if err := cfg.SetupLogger(); err != nil {
+		return "ok"
+	}
+	storecfg.Quiet()
+	defer os.RemoveAll(cfg.DataDir)
+	start := func() (*server.Server, context.CancelFunc) {
+		ctx, cancel := context.WithCancel(context.Background())
+		ch := make(chan *server.Server, 1)
+		go func() {
+			svr, err := server.CreateServer(ctx, cfg)
+			if err == nil {
+				err = svr.Run()
+			}
+			if err != nil {
+				ch <- nil
+				return
+			}
+			ch <- svr
+		}()
+		var svr *server.Server
+		select {
+		case svr = <-ch:
+		case <-time.After(40 * time.Second):
+		}
+		if svr == nil {
+			cancel()
+			return nil, nil
+		}
+		storecfg.Quiet()
+		deadline := time.Now().Add(30 * time.Second)
+		for !svr.GetMember().IsLeader() && time.Now().Before(deadline) {
+			time.Sleep(20 * time.Millisecond)
+		}
+		return svr, cancel
+	}
+	var mu sync.Mutex
+	var ids []uint64
+	add := func(v uint64) { mu.Lock(); ids = append(ids, v); mu.Unlock() }
+	viaHandler := func(svr *server.Server, k int) {
+		for i := 0; i < k; i++ {
+			resp, err := svr.AllocID(context.Background(), &pdpb.AllocIDRequest{Header: &pdpb.RequestHeader{ClusterId: svr.ClusterID()}})
+			if err == nil && resp.GetHeader().GetError() == nil && resp.GetId() != 0 {
+				add(resp.GetId())
+			}
+		}
+	}
+	svr, cancel := start()
+	if svr == nil {
+		return "ok"
+	}
+	viaHandler(svr, 5)
+	for t := 0; t < terms; t++ {
+		stop := make(chan struct{})
+		done := make(chan struct{})
+		old := svr.GetAllocator()
+		go func() {
+			defer close(done)
+			for n := 0; n < 400; n++ {
+				select {
+				case <-stop:
+					return
+				default:
+				}
+				if v, err := old.Alloc(); err == nil {
+					add(v)
+				}
+				time.Sleep(500 * time.Microsecond)
+			}
+		}()
+		time.Sleep(20 * time.Millisecond)
+		closed := make(chan struct{})
+		go func() { svr.Close(); cancel(); close(closed) }()
+		select {
+		case <-closed:
+		case <-time.After(20 * time.Second):
+		}
+		close(stop)
+		<-done
+		svr, cancel = start()
+		if svr == nil {
+			break
+		}
+		viaHandler(svr, 5)
+	}
+	if svr != nil {
+		go func() { svr.Close(); cancel() }()
+		time.Sleep(200 * time.Millisecond)
+	}
+	var parts []string
+	for _, v := range ids {
+		parts = append(parts, strconv.FormatUint(v, 10))
+	}
+	return "ok " + strings.Join(parts, " ")
 }
